@@ -289,6 +289,63 @@ func creatorEqualityViaHelper(w *World, fl *Flow, f *ssa.Function, recvOrReq *ss
 	return false
 }
 
+// creatorEqualityByFacts: every success return of f is dominated by `<request path p> == Metadata.Creator`,
+// possibly established inside a guard helper whose parameters are bound at the guarding call.
+func creatorEqualityByFacts(fl *Flow, f *ssa.Function, req *ssa.Parameter, p string) bool {
+	if f == nil {
+		return false
+	}
+	rets := SuccessReturns(f)
+	if len(rets) == 0 {
+		return false
+	}
+	has := func(fa Fact, v ssa.Value, suffix string) bool {
+		aps, _ := fl.Influence(v)
+		for a := range aps {
+			pr, ok := a.Root.(*ssa.Parameter)
+			if !ok {
+				continue
+			}
+			if pr == req && a.Path == suffix {
+				return true
+			}
+			// a parameter of the guard helper: continue at the argument of the guarding call
+			if fa.Bind != nil {
+				if h := fa.Bind.StaticCallee(); h != nil && pr.Parent() == h {
+					for i, q := range h.Params {
+						if q == pr && i < len(fa.Bind.Args) {
+							a2, _ := fl.Influence(fa.Bind.Args[i])
+							for x := range a2 {
+								if xr, ok := x.Root.(*ssa.Parameter); ok && xr == req && x.Path+a.Path == suffix {
+									return true
+								}
+							}
+						}
+					}
+				}
+			}
+		}
+		return false
+	}
+	for r := range rets {
+		held := false
+		for _, fa := range FactsAt(r) {
+			if fa.Kind != FCmp || fa.Op != token.EQL {
+				continue
+			}
+			for _, pr := range [][2]ssa.Value{{fa.X, fa.Y}, {fa.Y, fa.X}} {
+				if has(fa, pr[0], p) && has(fa, pr[1], ".Metadata.Creator") {
+					held = true
+				}
+			}
+		}
+		if !held {
+			return false
+		}
+	}
+	return true
+}
+
 func reqTypeName(e Entry) string {
 	if n := namedOf(e.Req); n != nil {
 		return n.Obj().Name()
@@ -413,7 +470,7 @@ func rulesC03(w *World, o *Out) {
 			switch {
 			case authGuard:
 				o.Pass("C03.R3", key, u.pos, "handler is guarded by the governance authority")
-			case creatorEqualityGuard(fl, h, req, p) || creatorEqualityViaHelper(w, fl, h, req, p):
+			case creatorEqualityGuard(fl, h, req, p) || creatorEqualityViaHelper(w, fl, h, req, p) || creatorEqualityByFacts(fl, h, req, p):
 				o.Pass("C03.R3", key, u.pos, "handler refuses unless the field equals Metadata.Creator")
 			case vb != nil && len(vb.Params) > 0 && creatorEqualityGuard(fl, vb, vb.Params[0], p):
 				o.Pass("C03.R3", key, u.pos, "ValidateBasic refuses unless the field equals Metadata.Creator")
